@@ -64,6 +64,10 @@ def classify(events, pos):
         if any(e["e"] == "dstart" and e["seg"] == ev["seg"] for e in events[:pos]):
             return "dstart/segment-expanded-twice"
         return "dstart/before-parent"
+    if ev["e"] == "iscycle":
+        return "iscycle/%s" % ("self-loop" if len(ev["nodes"]) >= 2 and ev["nodes"][-1] == ev["nodes"][-2] else "longer-cycle" if ev["nodes"][-1] in ev["nodes"][:-1] else "no-cycle")
+    if ev["e"] == "paths":
+        return "filter/%s/workers-%s" % (ev["mode"], "1" if ev["workers"] == 1 else "n")
     if ev["e"] == "hang":
         return "hang/%s" % mode
     if ev["e"].startswith("p"):
@@ -93,7 +97,8 @@ def run(ctx):
                         "events logged by the harness-supplied Driver under one mutex in real-time order; BreadthFirst's return logged after "
                         "it returns; goroutine count compared with the count before the call",
                         "gate mode: verifhook points in traversal.go used as scheduler gates - shapes schedules, never produces verdicts",
-                        "sequential helpers (ops.TraversePaths etc.) are not covered"]
+                        "the helpers of ops/traversal.go need a graph.Transaction with criteria evaluation, which the fake database does not have: they are covered through their "
+                        "building blocks only - PathSegment.IsCycle on every walk and the segment filters (AcyclicNodeFilter, UniquePathSegmentFilter) under BreadthFirst on every small graph"]
     if ctx.replay:
         rep = json.load(open(ctx.replay))["replay"]
         one = os.path.join(ctx.work, "one.ndjson")
@@ -150,7 +155,17 @@ def run(ctx):
     t = os.path.join(ctx.work, "pipe.ndjson")
     ctx.vh(["trav", "pipe", "--out", t, "--seed", str(ctx.seed), "--n", "200" if quick else "2000"], race=True, timeout=1500)
     n_pipe = validate(ctx, t, "pipe")
-    ctx.cov["runs"] = {"gate": n_gate, "free": n_free, "pipe": n_pipe}
+    # segment filters and cycle detection: every graph with <= 3 nodes and <= 4 edges (self loops, 2-cycles), every root
+    gg = ctx.tlc(AREA, "PathsGen", "PathsGen.cfg", workers=4, timeout=900)
+    fgraphs = ctx.printed_json(gg.out)
+    if len(fgraphs) < 200:
+        raise ToolFailure("PathsGen printed %d graphs:\n%s" % (len(fgraphs), gg.out[-1500:]))
+    fgp = os.path.join(ctx.work, "fgraphs.ndjson")
+    write_ndjson(fgp, fgraphs)
+    t = os.path.join(ctx.work, "filters.ndjson")
+    ctx.vh(["trav", "filters", "--in", fgp, "--out", t, "--stride", "2" if quick else "1"], timeout=1500)
+    n_filters = validate(ctx, t, "filters")
+    ctx.cov["runs"] = {"gate": n_gate, "free": n_free, "pipe": n_pipe, "filters": n_filters}
     nt = sum(1 for p in plans if p["n"] >= 3)
     ctx.cov["distinct_nontrivial"] = nt * 5
     ctx.cov["samples"].append({"plan": plans[len(plans) // 2]})
